@@ -19,6 +19,7 @@ adversarial alphabet in 14 slots x 3 wrappers; all raw strings up to length
 from __future__ import annotations
 
 import ast
+import os
 import itertools
 import re
 
@@ -36,7 +37,51 @@ ASSUMPTIONS = [
 ]
 
 ALPHABET = ['"', "'", "\\", "\n", "(", ")", "[", "]", "^", "`", ":", ";", ",", "=", "a", "Z", "0", "_"]
-PREFIXED = re.compile(r"^(VAR_|_lambda_)[A-Za-z0-9_]*$")
+class _Prefixed:
+    """Identifiers the transpiler makes from program-chosen names or from its own counters / random tokens:
+    a FIXED prefix followed by ASCII letters, digits and underscores.  The prefixes are learnt from the tree under
+    test (on the pinned tree: VAR_ and _lambda_), not hard-coded, so that a tree which names its generated loop
+    variables `_loopvar_12` is not reported:
+      * every identifier that contains one of the corpus' marker names (qqa, qqf) gives the text before the marker;
+      * every identifier that differs between two transpilations of the same program (a counter, a random token)
+        gives the common part up to its last underscore.
+    A marker name without anything in front of it is not a prefix (that would be program text used as a name)."""
+
+    def __init__(self):
+        self._re = None
+        self.prefixes = None
+
+    def _learn(self):
+        found = set()
+        for text in ["←qqa", "→qqa", "(qqa|1)", "@qqf:2:qqa|1;", "@qqf;", "λ1;", "3(1)", "1[2|3]", "⟨1|2⟩", "ƛ1;", "'1;", "µ1;", "{1|2}", "vλ1;", "⁽+", "3(λ1;)"]:
+            for dc in (True, False):
+                try:
+                    a = list(_identifiers(ast.parse(harness.transpile(text, dc, False))))
+                    b = list(_identifiers(ast.parse(harness.transpile(text, dc, False))))
+                except Exception:  # noqa: BLE001
+                    continue
+                for x in a:
+                    for mk in ("qqa", "qqf"):
+                        if mk in x and x.index(mk) > 0:
+                            found.add(x[: x.index(mk)])
+                if len(a) == len(b):
+                    for x, y in zip(a, b):
+                        if x != y:
+                            common = os.path.commonprefix([x, y])
+                            if "_" in common:
+                                found.add(common[: common.rindex("_") + 1])
+        found = {f for f in found if len(f) >= 2 and re.fullmatch(r"[A-Za-z_][A-Za-z0-9_]*", f)}
+        # a learnt prefix must not swallow a whole family of template names (e.g. a single underscore)
+        self.prefixes = sorted(found, key=len, reverse=True) or ["VAR_", "_lambda_"]
+        self._re = re.compile("^(" + "|".join(re.escape(f) for f in self.prefixes) + ")[A-Za-z0-9_]*$")
+
+    def match(self, name):
+        if self._re is None:
+            self._learn()
+        return self._re.match(name)
+
+
+PREFIXED = _Prefixed()
 
 
 # ---- abstraction of the generated Python -------------------------------------------
@@ -235,7 +280,8 @@ SLOTS = [
     ("fname-def", "@", ":1|d;", None, None), ("fname-call", "@", ";", None, None),
     ("param1", "@f:", "|1;", None, None), ("param2", "@f:1:", ":b|1;", None, None), ("arity", "λ", "|1;", None, None),
 ]
-WRAPPERS = [("", ""), ("3(", ")"), ("λ", ";1")]
+# the last two put an exploit-shaped literal / comment directly in front of the slot (text must not leak from one token into the next)
+WRAPPERS = [("", ""), ("3(", ")"), ("λ", ";1"), ('`");x()#`', ""), ("«;x()#«‛)(", "")]
 
 
 def check_slot(slot, wrap, payload, dc):
